@@ -14,9 +14,16 @@ type combinedIterator struct {
 	sample   *sampleIterator
 	metadata *birch.Document
 	document *birch.Document
-	pipe     chan *birch.Document
+	pipe     chan documentWithMetadata
 	catcher  util.Catcher
 	flatten  bool
+}
+
+// documentWithMetadata is what the workers hand to the consumer: a document
+// together with the metadata of the chunk it was derived from.
+type documentWithMetadata struct {
+	document *birch.Document
+	metadata *birch.Document
 }
 
 func (iter *combinedIterator) Close() {
@@ -35,12 +42,13 @@ func (iter *combinedIterator) Metadata() *birch.Document { return iter.metadata 
 func (iter *combinedIterator) Document() *birch.Document { return iter.document }
 
 func (iter *combinedIterator) Next() bool {
-	doc, ok := <-iter.pipe
+	item, ok := <-iter.pipe
 	if !ok {
 		return false
 	}
 
-	iter.document = doc
+	iter.document = item.document
+	iter.metadata = item.metadata
 	return true
 }
 
@@ -60,13 +68,9 @@ func (iter *combinedIterator) worker(ctx context.Context) {
 			iter.catcher.Add(errors.New("programmer error"))
 			return
 		}
-		if iter.metadata != nil {
-			iter.metadata = chunk.GetMetadata()
-		}
-
 		for iter.sample.Next() {
 			select {
-			case iter.pipe <- iter.sample.Document():
+			case iter.pipe <- documentWithMetadata{document: iter.sample.Document(), metadata: chunk.GetMetadata()}:
 				continue
 			case <-ctx.Done():
 				iter.catcher.Add(errors.New("operation aborted"))
